@@ -107,7 +107,9 @@ def build_case(rng, cid, kind):
         files.append(('lib.inc', '; assembler text\n lda #1 ; "quoted"\n'))
         main.phys('#include "lib.inc"')
     if rng.random() < 0.4:
-        files.append(('ok.h', 'char from_ok;\n/* c */\n'))
+        # half of the time the included file lacks its final newline (the includer's next line must
+        # not be glued to it: repaired defect F-C06-glued-include-line)
+        files.append(('ok.h', rng.choice(['char from_ok;\n/* c */\n', 'char from_ok;', 'char from_ok;\nchar from_ok2;'])))
         main.phys('#include "ok.h"')
     for _ in range(rng.randrange(0, 3)):
         main.shifter()
